@@ -145,6 +145,17 @@ CLAIMED = {
               'strings) checks documented code or empty string, no exception, position 0, file still readable, bounded time.'),
         note='The feature abstraction is trusted to describe the byte tests; fault enumeration is systematic but finite.',
         technique='TLA+ spec + TLC check of the decision list; generated files of every format replayed; systematic fault enumeration'),
+    'C08': dict(
+        category='model_checking', design='3/C08',
+        text=('TLC model checks the component-block stream of a LIS table and the row assembly / duplicate-discard machine of '
+              'LrTableRead (LisTable.tla) for every table of <= 3 rows over two row names, value classes and unit flags, both for '
+              'writer-produced streams and raw streams containing duplicate rows, plus entry-block-set parity and burst '
+              'derivation; every terminal state becomes one implementation test with concrete boundary values per class: real '
+              'LrTableWrite (or an independent component-block encoder for duplicates) -> physical LIS file with a random '
+              'layout -> real LrTableRead, compared with the specification; entry block sets (600 random / all 2^15 subsets x '
+              'legal sizes) and independently packed channel blocks go through EntryBlockSet.lisBytes() -> LrDFSRRead.'),
+        note='Trusts TLC and the harness encoders (struct packing per LIS-79); an empty byte cell may read back as None.',
+        technique='TLA+ spec + TLC model checking; one implementation test per terminal state of the model'),
 }
 
 NOT_YET = 'check not built yet in this session; planned per DESIGN.md section 3'
